@@ -11,6 +11,7 @@ TEXTS = {
  'C08': ("Bounded model checking of the WAL id/cursor state machine on the real MetaStore methods (one flush + clean restart from an arbitrary valid state) and of the cursor data flow through serialize/deserialize. Files, threads, partition offsets and Table::restore_tables_from_disk are outside the claim.", "§3 C08"),
  'C14': ("Bounded model checking of the version/length/checksum envelope every stored file goes through (SHA-256 as an uninterpreted function). capnp's wire format inside the payload is outside the claim.", "§3 C14"),
  'C16': ("Bounded model checking of the integer response codec kernels (statistics, delta and double-delta encoders) with counterexamples replayed on the public serialize/deserialize round trip. capnp bytes and HTTP are outside the claim.", "§3 C16"),
+ 'C15': ("Bounded model checking of the column-name -> sub-partition routing on the reader side. Directory layout on a real file system and the disk read scheduler are outside the claim.", "§3 C15"),
 }
 NA_REASON = {
  'C09': "crash points of std::fs effects issued from thread-pool jobs: neither Kani (no threads/FS) nor a MIR encoding can execute them; see DESIGN.md §4",
